@@ -20,7 +20,77 @@ type RaceAccess struct {
 type RaceReport struct {
 	A, B        RaceAccess
 	HarnessOnly bool   // neither stack enters bio-rd
+	Hook        bool   // one of the innermost bio-rd functions is a verification hook (Verif…): harness code inside the package
 	Text        string // the block (truncated)
+}
+
+// ReadEntry is the outermost bio-rd function of the side that READ ("(consumer)" if that side never enters bio-rd
+// below the harness, "" if both sides wrote): the entry point through which the unsynchronised reader came.
+func (r RaceReport) ReadEntry() string {
+	for _, x := range []RaceAccess{r.A, r.B} {
+		h := strings.ToLower(x.Header)
+		if strings.HasPrefix(h, "read") || strings.HasPrefix(h, "previous read") || strings.HasPrefix(h, "atomic read") || strings.HasPrefix(h, "previous atomic read") {
+			if x.Entry == "" {
+				return "(consumer)"
+			}
+			return x.Entry
+		}
+	}
+	return ""
+}
+
+// Writer is the innermost bio-rd function outside the value-object packages on the writing side (both, sorted and joined with " & ", when both wrote;
+// "(consumer)" when the writing stack never enters bio-rd, e.g. the construction of a path before it was handed over).
+func (r RaceReport) Writer() string {
+	var ws []string
+	for _, x := range []RaceAccess{r.A, r.B} {
+		if strings.Contains(strings.ToLower(x.Header), "write") {
+			if x.Inner == "" {
+				ws = append(ws, "(consumer)")
+			} else {
+				ws = append(ws, x.actor())
+			}
+		}
+	}
+	sort.Strings(ws)
+	return strings.Join(ws, " & ")
+}
+
+// dataPkgs are bio-rd's value-object packages: a frame there (Prepend, Copy, ToProto, …) says which field was touched,
+// not who decided to touch it.
+var dataPkgs = []string{bioPrefix + "route.", bioPrefix + "route/api.", bioPrefix + "protocols/bgp/types.", bioPrefix + "net.", bioPrefix + "net/api."}
+
+// actor is the innermost bio-rd function outside the value-object packages (the innermost bio-rd function if there is none).
+func (a RaceAccess) actor() string {
+	for _, f := range a.Frames {
+		if !strings.HasPrefix(f, bioPrefix) {
+			continue
+		}
+		data := false
+		for _, p := range dataPkgs {
+			if strings.HasPrefix(f, p) {
+				data = true
+			}
+		}
+		if !data {
+			return ShortFunc(f)
+		}
+	}
+	return a.Inner
+}
+
+// WriteEntry is the entry point of the (first) writing side.
+func (r RaceReport) WriteEntry() string {
+	for _, x := range []RaceAccess{r.A, r.B} {
+		h := strings.ToLower(x.Header)
+		if strings.Contains(h, "write") {
+			if x.Entry == "" {
+				return "(consumer)"
+			}
+			return x.Entry
+		}
+	}
+	return ""
 }
 
 // InnerPair returns the two innermost bio-rd functions, sorted. A side that never enters bio-rd (a client or API
@@ -147,6 +217,7 @@ func ParseRaceLog(text string) []RaceReport {
 		}
 		r := RaceReport{A: acc[0], B: acc[1]}
 		r.HarnessOnly = r.A.Inner == "" && r.B.Inner == ""
+		r.Hook = strings.Contains(r.A.Inner, ".Verif") || strings.Contains(r.B.Inner, ".Verif")
 		t := strings.TrimSpace(blk)
 		if len(t) > 5000 {
 			t = t[:5000] + "\n…"
